@@ -738,17 +738,19 @@ class Runner:
     def _replay_fails(self, cin, site):
         """Run the body concretely on the unpatched code; True iff `site` fails there."""
         A = AConc()
+        raised = None
         with unpatched():
             try:
                 with warnings.catch_warnings():
                     warnings.simplefilter('ignore')
                     self.job.body(A, _copy_inputs(cin))
             except Exception as ex:
-                return False, "replay raised %s: %s" % (type(ex).__name__, ex)
+                raised = "replay raised %s: %s" % (type(ex).__name__, ex)
+        # (a requirement that failed before a later part of the body raised still counts)
         for s_, ok, info in A.reqs:
             if s_ == site and not ok:
                 return True, dict(obs=[[n, jsonable(v)] for n, v in A.obs][:40], info=jsonable(info))
-        return False, None
+        return False, raised
 
     # -- one path
     def path(self, ctx):
